@@ -122,6 +122,7 @@ public:
     if (st_.empty()) return false;
     ++st_.back().first; pos_ = 0; return true;
   }
+  size_t rawPath(uint64_t* out, size_t cap) const { size_t n = 0; for (size_t i = 0; i < pos_ && i < st_.size() && n < cap; ++i) out[n++] = st_[i].first; return n; }
   std::vector<uint64_t> path() const { std::vector<uint64_t> p; for (size_t i = 0; i < pos_ && i < st_.size(); ++i) p.push_back(st_[i].first); return p; }
 };
 
@@ -256,6 +257,7 @@ struct Global {
   uint64_t cur[MAXC]; size_t curN = 0; volatile uint64_t caseSeq = 0;
   char crashPath[512] = {0}; char hangPath[512] = {0};
   int shardK = 0, shardN = 1;
+  const EnumSrc* enumSrc = nullptr;  // enumeration in progress: crash dumps take the path from it
   std::function<void()> resetHook;  // per-harness global-state reset
 };
 inline Global& G() { static Global g; return g; }
@@ -269,6 +271,7 @@ inline void dumpCurrent(const char* path, const char* why) {
   Global& g = G(); if (!g.law || !path[0]) return;
   FILE* f = fopen(path, "w"); if (!f) return;
   fprintf(f, "law %s\nchoices", g.law->name.c_str());
+  if (g.enumSrc) g.curN = g.enumSrc->rawPath(g.cur, Global::MAXC);
   size_t n = g.curN; while (n > 0 && g.cur[n - 1] == 0) --n;
   for (size_t i = 0; i < n; ++i) fprintf(f, " %" PRIx64, g.cur[i]);
   fprintf(f, "\n# fail: %s\n", why); fclose(f);
@@ -474,7 +477,7 @@ inline int harnessMain(int argc, char** argv, const char* propertyId) {
   double t0 = nowS(); Stats st; bool failed = false; std::string failFile, failMsg; bool exhaustive = false;
 
   if (law->kind == ENUM) {
-    EnumSrc es; bool more = true; G().shardN = shardN; G().shardK = shardK;
+    EnumSrc es; bool more = true; G().shardN = shardN; G().shardK = shardK; G().enumSrc = &es;
     while (more) {
       es.restart();
       // the path is only known after the run: dump uses the path reconstructed afterwards
@@ -489,7 +492,7 @@ inline int harnessMain(int argc, char** argv, const char* propertyId) {
       more = es.next(v.skipped && v.knownHit.empty());
       if (n > 0 && st.evaluations >= n) { break; }
     }
-    exhaustive = !more && !failed;
+    exhaustive = !more && !failed; G().enumSrc = nullptr;
   } else {
     std::vector<uint64_t> lastFail; Verdict lastV;
     const Law& L = *law;
